@@ -101,8 +101,8 @@ impl Monitor for C04 {
 				"row-count"
 			} else if msg.contains("entries") || msg.contains("bits want") {
 				"column-length"
-			} else if msg.contains("wanted value found") {
-				"row-misalignment"
+			} else if msg.contains("misplacement") {
+				"record-misplacement"
 			} else {
 				"other"
 			};
